@@ -1194,6 +1194,9 @@ func goFnExprFor(e *sqlparser.FuncExpr, fname string) (goexpr.Expr, error) {
 	}
 	vfn, found := varGoExpr[fname]
 	if found {
+		if numParams == 0 {
+			return nil, fmt.Errorf("Function %v requires at least 1 parameter", fname)
+		}
 		params := make([]goexpr.Expr, 0, numParams)
 		for i := 0; i < numParams; i++ {
 			param, err := paramGoExpr(e, i)
